@@ -73,6 +73,7 @@ def msgClaim (del : Acct) (v : ValId) (d : Option Denom) : M Unit := do
 def msgUpdateParams (s : Signer) (p : Params) : M Unit := do
   if s = .malformed then throwE "invalid_authority"
   if p.rewardDelay < 0 then throwE "invalid_duration"
+  if p.takeRateInterval ≤ 0 then throwE "invalid_interval"
   if s ≠ .authority then throwE "unauthorized"
   setParams p
 
@@ -175,7 +176,7 @@ def step (op : Op) : M Unit :=
   | .hookDelegationModified => queueRebalance
   | .hookValidatorBonded => queueRebalance
   | .hookValidatorBeginUnbonding => queueRebalance
-  | .hookDelegationRemoved => pure ()
+  | .hookDelegationRemoved => queueRebalance
   | .hookValidatorRemoved v => afterValidatorRemoved v
   | .env => pure ()
 
